@@ -271,13 +271,13 @@ int main(int argc, char** argv){
     const bool thorough = (args.tier == "thorough");
     return supervise(args, "C11", [&](Report& rep, Progress& pg){
         unsigned long ord = 0;
-        const int h1 = thorough ? 16 : 11, h2 = thorough ? 9 : 6, h3 = thorough ? 7 : 4, h4 = thorough ? 5 : 3;
+        const int h1 = thorough ? 18 : 11, h2 = thorough ? 10 : 6, h3 = thorough ? 8 : 4, h4 = thorough ? 6 : 3;
         exhaustiveHeight<Mo<1,false>>(h1, args, rep, pg, ord);
         exhaustiveHeight<Mo<1,true>>(h1, args, rep, pg, ord);
         exhaustiveHeight<Mo<2,false>>(h2, args, rep, pg, ord); exhaustiveHeight<Mo<2,true>>(h2, args, rep, pg, ord);
         exhaustiveHeight<Mo<3,false>>(h3, args, rep, pg, ord); exhaustiveHeight<Mo<3,true>>(h3, args, rep, pg, ord);
         exhaustiveHeight<Mo<4,false>>(h4, args, rep, pg, ord); exhaustiveHeight<Mo<4,true>>(h4, args, rep, pg, ord);
-        exhaustiveHeight<Hi>(thorough ? 6 : 4, args, rep, pg, ord);
+        exhaustiveHeight<Hi>(thorough ? 7 : 4, args, rep, pg, ord);
         // high levels, boundary lattice: up to the largest level whose indices fit 63 bits
         for(int l : {12, 20, 30, 31, 32, 40, 62}){ latticeLevel<Mo<1,false>>(l, args, rep, pg, ord); latticeLevel<Mo<1,true>>(l, args, rep, pg, ord); }
         for(int l : {8, 15, 16, 20, 30, 31}){ latticeLevel<Mo<2,false>>(l, args, rep, pg, ord); latticeLevel<Mo<2,true>>(l, args, rep, pg, ord); }
